@@ -23,7 +23,7 @@ pub struct Enumerated {
 
 fn i_e_into_structure(id: u64, class: TagClass, inner: i64) -> structure::StructureTag {
     let mut count = 0u8;
-    let mut rem: i64 = if inner >= 0 { inner } else { -inner };
+    let mut rem: i64 = if inner >= 0 { inner } else { !inner };
     while {
         count += 1;
         rem >>= 8;
@@ -34,6 +34,10 @@ fn i_e_into_structure(id: u64, class: TagClass, inner: i64) -> structure::Struct
     // We shift away all but the most significant bit and check that.
     // See #21
     if inner > 0 && inner >> ((8 * count) - 1) == 1 {
+        count += 1;
+    }
+    // Likewise, the most significant bit of a negative number must be 1.
+    if inner < 0 && (inner >> ((8 * count) - 1)) & 1 == 0 {
         count += 1;
     }
 
